@@ -434,6 +434,9 @@ func solve(o *Obligation, timeout time.Duration, portfolio []string) {
 	racers := []racer{{portfolio[0], 1}, {portfolio[0], 2}}
 	if portfolio[0] == "z3-new" {
 		racers = append(racers, racer{"z3-new-a2", 1}, racer{"z3-new-a2", 2})
+		// z3 4.8.12 on the small query: its nonlinear core decides some product/monomial goals at once
+		// on which 5.1.0 wanders (and the other way round for wrap-around goals)
+		racers = append(racers, racer{"z3", 1})
 	}
 	ctx, cancel := context.WithCancel(context.Background())
 	ch := make(chan res, len(racers))
